@@ -258,8 +258,46 @@ def call_name(call: ast.Call) -> str:
     return ast.unparse(call.func)
 
 
+def _callee_params(call: ast.Call) -> Optional[list[str]]:
+    """Declared parameters (without self/cls) of the callee, when the callee is certainly a package function:
+    a plain name or a self./cls. method whose name is defined exactly once in the package (same rule as canon K8)."""
+    from .canon import _package_defs
+    if isinstance(call.func, ast.Name):
+        name, via_obj = call.func.id, False
+    elif isinstance(call.func, ast.Attribute) and isinstance(call.func.value, ast.Name) and call.func.value.id in ("self", "cls"):
+        name, via_obj = call.func.attr, True
+    else:
+        return None
+    ent = _package_defs().get(name)
+    if ent is None or ent[1] != via_obj:
+        return None
+    return ent[0]
+
+
 def kwarg(call: ast.Call, name: str) -> Optional[ast.AST]:
+    """The argument bound to parameter *name*: by keyword, or - for a certain package callee - by position."""
     for kw in call.keywords:
         if kw.arg == name:
             return kw.value
+    params = _callee_params(call)
+    if params and name in params:
+        i = params.index(name)
+        if i < len(call.args) and not any(isinstance(a, ast.Starred) for a in call.args[: i + 1]):
+            return call.args[i]
     return None
+
+
+def named_args(call: ast.Call) -> dict[str, ast.AST]:
+    """parameter name -> argument node, for keywords and (certain package callees) positional arguments."""
+    out: dict[str, ast.AST] = {}
+    params = _callee_params(call)
+    if params:
+        for i, a in enumerate(call.args):
+            if isinstance(a, ast.Starred):
+                break
+            if i < len(params):
+                out[params[i]] = a
+    for kw in call.keywords:
+        if kw.arg:
+            out[kw.arg] = kw.value
+    return out
